@@ -65,20 +65,33 @@ def gram_iter_width(ctx, rule):
             if bt is None:
                 continue
             e = sy.operand(t["discr"])
-            if e[0] == "binop" and e[1] in ("Lt", "Le", "Gt", "Ge", "Ne", "Eq") and U.is_const(e[3]):
-                c = S.const_value(e[3])
-                # branch on which the width is incremented
-                tb = bt[1]
-                inc = False
-                for x in cfg.reachable_from(tb, avoid=[bt[0]]):
-                    for st in nb.blocks[x]["stmts"]:
-                        if st["k"] == "assign" and st["rv"]["k"] == "binop" and st["rv"]["op"].startswith("Add"):
-                            inc = True
-                if inc:
-                    # width < c  ==> width += 1 ; need c == array length so that widths 1..len are produced
-                    stop = {"Lt": c, "Le": c + 1, "Ne": c}.get(e[1])
+            if e[0] == "binop" and e[1] in ("Lt", "Le", "Gt", "Ge", "Ne", "Eq") and (U.is_const(e[3]) or U.is_const(e[2])):
+                if U.is_const(e[3]):
+                    c = S.const_value(e[3])
+                    truth = lambda w, op=e[1], c=c: U.cmp_eval(op, w, c)
+                else:
+                    c = S.const_value(e[2])
+                    truth = lambda w, op=e[1], c=c: U.cmp_eval(op, c, w)
+                if not isinstance(c, int) or isinstance(c, bool):
+                    continue
+                # side of the branch on which the width is incremented (either polarity: `if w < 3 {w += 1}` or
+                # `if w >= 3 {slide} else {w += 1}`), and the widths for which that side is taken
+                for side in (True, False):
+                    tb, other = (bt[1], bt[0]) if side else (bt[0], bt[1])
+                    inc = False
+                    for x in cfg.reachable_from(tb, avoid=[other]):
+                        if x in cfg.reachable_from(other, avoid=[tb]):
+                            continue
+                        for st in nb.blocks[x]["stmts"]:
+                            if st["k"] == "assign" and st["rv"]["k"] == "binop" and st["rv"]["op"].startswith("Add") and \
+                                    S.const_value(sy.operand(st["rv"]["b"])) == 1:
+                                inc = True
+                    if not inc:
+                        continue
+                    grows_for = [w for w in range(1, arr_len + 3) if bool(truth(w)) == side]
+                    stop = (max(grows_for) + 1) if grows_for else None
                     key = "width-growth:%s" % nb.id
-                    if stop == arr_len:
+                    if grows_for == list(range(1, arr_len)):
                         grow_ok = True
                         ctx.ok(rule, key, where(nb, bi), "width grows 1,2,…,%d and then the window slides" % arr_len,
                                nontrivial=True)
@@ -367,6 +380,20 @@ def counters(ctx, rule, need_clear=True, check_len_inc=True):
                 and all(cfg.dominates(bi, u) for u in unchecked) and (not need_clear or any(cfg.dominates(c, bi) for c in clears)):
             ok = True
             lenfield = npth[2][-1]
+    if not ok:
+        # `*counts = vec![0; self.len]`: a fresh zeroed vector of the record count (clear and resize in one)
+        for bi, si, st in b.iter_stmts():
+            if st["k"] != "assign" or not st["place"]["p"] or b.blocks[bi]["cleanup"]:
+                continue
+            pth = U.field_path(sy.place(st["place"]))
+            if pth is None or not pth[2] or pth[2][-1] != cfield:
+                continue
+            v = S.strip_refs(sy.rvalue(st["rv"]))
+            if v[0] == "call" and v[1].endswith("from_elem") and len(v[2]) >= 2 and S.const_value(S.strip_refs(v[2][0])) == 0:
+                npth = U.field_path(v[2][1])
+                if npth is not None and npth[0] == "arg" and npth[1] == 1 and all(cfg.dominates(bi, u) for u in unchecked):
+                    ok = True
+                    lenfield = npth[2][-1]
     if ok and not need_clear:
         ctx.ok(rule, key, b.where(), "counters are resized to the index's record count (field '%s') before any unchecked access" % lenfield,
                nontrivial=True)
@@ -493,19 +520,6 @@ def unfinished_prefix_clip(ctx, rule):
     if np_id is None:
         return
     for g in gates:
-        if g.kind == "length":
-            key = "length-clip:%s" % g.body.id
-            mins = U.expr_calls(g.x, "cmp::min")
-            phis = [x for x in S.walk(g.x) if isinstance(x, tuple) and x and x[0] == "phi"]
-            ok = any(len(U.flatten_phi(p)) == 2 and any(a[0] == "call" and a[1].endswith("cmp::min") for a in U.flatten_phi(p))
-                     for p in phis)
-            if ok:
-                ctx.ok(rule, key, where(g.body, g.bi), "record length is min(query length, record length) on the "
-                       "unfinished branch of the length gate", nontrivial=True)
-            else:
-                ctx.fail(rule, key, where(g.body, g.bi),
-                         "the length gate no longer clips the record word to the typed length for an unfinished query",
-                         {"witness": "query 'ab' against title 'abcdefgh': length distance 1 - 2/8 rejects the prefix"})
         if g.kind == "jaccard":
             key = "jaccard-clip:%s" % g.body.id
             exprs = G._expand(ctx, g.x)
@@ -530,14 +544,23 @@ def grams_from_whole_words(ctx, rule):
     idx_adt, producers = _index_bodies(ctx)
     if not ctx.floor(rule, "gram_producers", len(producers), 1):
         return
-    for p in producers:
+    for p0 in producers:
+      n = 0
+      for p in [p0] + U.nested_closures(ctx, p0):
         sy = ctx.sym(p)
-        n = 0
         for bi, t in p.calls():
             if U.callee_is(t, "Trigrams::trigrams") or (t.get("rcn") or "").endswith("TrigramIter::new"):
                 n += 1
                 recv = S.strip_refs(sy.operand(t["args"][0]))
-                key = "whole-word:%s" % p.id
+                if p.kind == "closure" and recv == ("arg", 2):
+                    # `.flat_map(|chars| chars.trigrams())`: the receiver is the element of the upstream iterator
+                    _, it_ = U.closure_param_item(ctx, p)
+                    if it_ is not None:
+                        recv = S.strip_refs(it_)
+                elif p.kind == "closure":
+                    _, recv = U.out_of_closure(ctx, p, recv)
+                    recv = S.strip_refs(recv)
+                key = "whole-word:%s" % p0.id
                 ok = False
                 if recv[0] == "call" and recv[1].endswith("Index::index"):
                     base = U.field_path(recv[2][0])
@@ -549,7 +572,9 @@ def grams_from_whole_words(ctx, rule):
                             while isinstance(x, tuple) and x and x[0] == "field":
                                 got.append(str(x[2]))
                                 x = S.strip_refs(x[1])
-                            nxt = any(isinstance(y, tuple) and y and y[0] == "call" and y[1].endswith("Iterator::next") for y in S.walk(x))
+                            nxt = any(isinstance(y, tuple) and y and ((y[0] == "call" and y[1].endswith("Iterator::next")) or
+                                                                     (y[0] == "item" and (U.field_path(y[1]) or (0, 0, [None]))[2][-1:] == ["words"]))
+                                      for y in S.walk(x))
                             return got[::-1][-2:] == names and nxt
                         ok = word_field(rng[3][0], ["slice", "0"]) and word_field(rng[3][1], ["slice", "1"])
                 if ok:
@@ -558,29 +583,53 @@ def grams_from_whole_words(ctx, rule):
                     ctx.fail(rule, key, where(p, bi, t), "grams are not taken from the whole word `chars[word.slice.0 .. word.slice.1]`: %s"
                              % S.show(recv, p)[:140],
                              {"witness": "English store: title 'walking shoes', query 'king' — the suffix cut off by the stemmer is never indexed"})
-        ctx.floor(rule, "gram_iterator_uses", n, 1, p.where())
+      ctx.floor(rule, "gram_iterator_uses", n, 1, p0.where())
+
+
+def posting_writer_bodies(ctx):
+    """TrigramIndex::add and the closures nested in it (and_modify / or_insert_with callbacks)"""
+    out = []
+    for b in ctx.facts.fns():
+        if b.kind in ("fn", "method") and b.cn.endswith("TrigramIndex::add"):
+            out.append(b)
+            out.extend(U.nested_closures(ctx, b))
+    return out
 
 
 def postings_unconditional(ctx, rule):
     """R18.g: for every gram of an added record the record's position is appended to the posting list on every path (no
     guard that can skip the push), and a new list starts with that position"""
-    facts = ctx.facts
-    idx_adt, _ = _index_bodies(ctx)
     n = 0
-    for b in facts.fns():
-        if b.kind != "closure" or "TrigramIndex::add" not in b.id:
-            continue
+    for b in posting_writer_bodies(ctx):
         cfg = ctx.cfg(b)
-        sy = ctx.sym(b)
         pushes = [bi for bi, t in b.calls() if U.callee_is(t, "Vec::push")]
-        creates = [bi for bi, t in b.calls() if U.callee_is(t, "from_elem", "into_vec", "box_assume_init_into_vec_unsafe", "Vec::from")]
-        if pushes:
-            n += 1
-            key = "push-on-every-path:%s" % b.id.rsplit("::", 1)[-1]
-            if cfg.every_path_passes(0, pushes):
-                ctx.ok(rule, key, b.where(), "the record's position is pushed on every (non-panicking) path", nontrivial=True, kind="S")
-            else:
-                ctx.fail(rule, key, b.where(), "the push of the record's position into an existing posting list can be skipped by a guard",
-                         {"witness": "records with small ids added out of id order: a record is not listed under its own grams and "
-                                     "is never a candidate"}, kind="S")
+        if not pushes:
+            continue
+        n += 1
+        key = "push-on-every-path:%s" % (b.id.rsplit("::", 1)[-1] if b.kind == "closure" else "add")
+        if b.kind == "closure":
+            good = cfg.every_path_passes(0, pushes)
+        else:
+            # written in the gram loop itself: every trip round the loop that took a gram passes the push
+            good = True
+            for pb in pushes:
+                h = cfg.inner_header(pb)
+                if h is None:
+                    good = cfg.every_path_passes(0, pushes)
+                    continue
+                nxt = [bi for bi, t in b.calls() if (t.get("cn") or "").endswith("Iterator::next") and cfg.inner_header(bi) == h]
+                for nb_ in nxt:
+                    tg = b.blocks[nb_]["term"].get("target")
+                    sw = b.blocks[tg]["term"] if tg is not None else None
+                    if sw is not None and sw["k"] == "switch":
+                        some_t = [x for v, x in sw["targets"] if v == 1]
+                        for s_ in some_t:
+                            if s_ not in pushes and cfg.path_exists(s_, nb_, avoid=pushes):
+                                good = False
+        if good:
+            ctx.ok(rule, key, b.where(), "the record's position is pushed on every (non-panicking) path", nontrivial=True, kind="S")
+        else:
+            ctx.fail(rule, key, b.where(), "the push of the record's position into an existing posting list can be skipped by a guard",
+                     {"witness": "records with small ids added out of id order: a record is not listed under its own grams and "
+                                 "is never a candidate"}, kind="S")
     ctx.floor(rule, "posting_push_closures", n, 1)
